@@ -498,9 +498,13 @@ func oracleC03(h *HistSys, hist []Op, w *world.World, obs Obs) *Finding {
 	// (where the pod-IP sync is in the alphabet the closure is one whole periodic tick, as galaxy-ipam runs it: the resync pass
 	// followed by the pod-IP sync)
 	tick := func(x *world.World) {
-		quiesce(x)
 		if h.Ops["syncpodips"] {
-			x.SyncPodIPs()
+			for len(x.Pending) > 0 {
+				x.Deliver(0)
+			}
+			x.Tick()
+		} else {
+			quiesce(x)
 		}
 	}
 	tick(pw)
